@@ -144,7 +144,7 @@ namespace sim
       if (nodes.empty())
         return "";
       auto &al = d.GetAllocator();
-      if (rng.chance(0.25))
+      if (rng.chance(0.35))
         {
           // length mismatch between list-valued siblings: take an object that holds two or more lists and
           // change the length of one of them by one (or cut it down to one element / nothing)
@@ -159,8 +159,14 @@ namespace sim
               for (auto &m : ov.GetObject())
                 if (m.value.IsArray())
                   ++lists;
-              if (lists >= 2)
-                holders.push_back(&ov);
+              // models (objects with a "model" key) are where lists have to agree with each other; the models
+              // nested inside features and segments count double
+              if (lists >= 2 && ov.HasMember("model"))
+                {
+                  holders.push_back(&ov);
+                  if (nr.depth >= 3)
+                    holders.push_back(&ov);
+                }
             }
           if (!holders.empty())
             {
